@@ -70,6 +70,23 @@ Theorem C14_hp_wellposed :
 Proof. move=> F n lam data lc cc i1 i2; exact: hp_wellposed. Qed.
 Print Assumptions C14_hp_wellposed.
 
+(* 2c. non-vacuity of the oracle contract: whenever the bordered matrix is invertible (2b: e.g. without
+       constraints, lam > 0 and two observations), solve := M^-1 b satisfies the contract assumed above *)
+Theorem C14_hp_contract_satisfiable :
+  forall (F : realFieldType) (n : nat) (lam : F) (data : list (option F)) (lc cc : list (nat * F)),
+  hp_M O n lam data lc cc \in unitmx ->
+  let solve := fun m (A : 'M[F]_m) (b : 'cV[F]_m) => invmx A *m b in
+  hp_M O n lam data lc cc *m solve _ (hp_M O n lam data lc cc) (hp_rhs O n data lc cc) = hp_rhs O n data lc cc.
+Proof. move=> F n lam data lc cc; exact: hp_contract_satisfiable. Qed.
+Print Assumptions C14_hp_contract_satisfiable.
+
+Theorem C14_hp_unconstrained_wellposed :
+  forall (F : realFieldType) (n : nat) (lam : F) (data : list (option F)) (i1 i2 : nat),
+  0 < lam -> (i1 < i2 < n)%N -> obs_at O data i1 -> obs_at O data i2 ->
+  hp_M O n lam data nil nil \in unitmx.
+Proof. move=> F n lam data i1 i2; exact: hp_unconstrained_wellposed. Qed.
+Print Assumptions C14_hp_unconstrained_wellposed.
+
 (* 3. trend + gap = data on observed rows; the gap is missing exactly where the data are *)
 Theorem C14_trend_plus_gap :
   forall (F : realFieldType) (n : nat) (lam : F) (data : list (option F)) (lc cc : list (nat * F))
